@@ -12,10 +12,14 @@ RULE = (
     "scripts = sequences of delegate outcomes over 10 classes (dict success / dict failure / non-dict / socket.timeout / ConnectionError / "
     "ConnectionTimeout / ApiError 408 / other ApiError / other TransportError / other exception), each realised by real exception classes and "
     "several concrete values, x retry parameters (present/absent keys, constructor default); a case is non-trivial when at least one "
-    "outcome is consumed; signature = (model (class,step) tags, result kind, parameter shape)"
+    "outcome is consumed; signature = (model (class,step) tags, result kind, parameter shape). product_content: the attempts' products are raw "
+    "(library exception class x HTTP status x wording = Elasticsearch error type / message / body shape, dict "
+    "results with every truthiness of success) and are classified by the model from isinstance facts; complete over wording x status x kind of "
+    "earlier retried attempt, plus random scripts"
 )
 TRUSTED = [
-    "the scripted delegate stands for a runner: only the class of what it returns/raises matters to Retry.__call__",
+    "the scripted delegate stands for a runner (that only the class of what it returns/raises matters to Retry.__call__ is checked by product_content)",
+    "product_content: isinstance facts of the exception objects are taken from CPython / the installed elasticsearch and elastic_transport classes",
     "asyncio.sleep is replaced by a recorder (durations observed exactly, no wall-clock waiting)",
     "truthiness of parameter values is taken from CPython (bool(x)) before the model is asked",
 ]
@@ -218,13 +222,14 @@ def model_args(pw, outs):
     return a
 
 
-def drive(call, outs):
+def drive(call, outs, objs=None):
     """runs `await call(delegate_or_none, es, params)` style thunk against the script.
     `call(script_fn)` must return a coroutine; script_fn is an async callable (es, params).
     -> (res, trace)   res as the model prints it, trace = ["c", "n/d", ...]"""
     import asyncio
 
-    objs = [make_outcome(k, v, i) for i, (k, v) in enumerate(outs)]
+    if objs is None:
+        objs = [make_outcome(k, v, i) for i, (k, v) in enumerate(outs)]
     trace = []
     state = {"n": 0}
 
@@ -1455,6 +1460,334 @@ def run_concurrent(ctx, case):
     ctx.count("shared-object:" + ("registered" if op else "Retry(delegate)"))
     ctx.sig([op is None, sig], nontrivial=True)
 
+# ---------------------------------------------------------------------------------------------
+# what the attempts' products SAY: error class (every class of the libraries) x HTTP status x wording
+# (message / Elasticsearch error type / response body) x what the EARLIER attempts of the same invocation produced
+# ---------------------------------------------------------------------------------------------
+# error types / wordings Elasticsearch and the client libraries really produce (Rally's client puts the error type into the message)
+ES_WORDINGS = [
+    "resource_already_exists_exception", "version_conflict_engine_exception", "index_not_found_exception", "resource_not_found_exception",
+    "illegal_argument_exception", "illegal_state_exception", "parsing_exception", "mapper_parsing_exception", "x_content_parse_exception",
+    "cluster_block_exception", "es_rejected_execution_exception", "circuit_breaking_exception", "process_cluster_event_timeout_exception",
+    "receive_timeout_transport_exception", "request_timeout", "timeout_exception", "elasticsearch_timeout_exception",
+    "snapshot_in_progress_exception", "concurrent_snapshot_execution_exception", "invalid_snapshot_name_exception", "snapshot_missing_exception",
+    "snapshot_restore_exception", "repository_missing_exception", "repository_exception", "security_exception", "search_phase_execution_exception",
+    "status_exception", "no_shard_available_action_exception", "unavailable_shards_exception", "master_not_discovered_exception",
+    "not_master_exception", "node_not_connected_exception", "connect_transport_exception", "index_closed_exception",
+    "invalid_index_name_exception", "too_many_requests", "task_cancelled_exception", "document_missing_exception",
+    "strict_dynamic_mapping_exception", "index_template_missing_exception", "invalid_alias_name_exception", "aliases_not_found_exception",
+    "action_request_validation_exception", "validation_exception", "resource_in_use_exception", "retention_lease_already_exists_exception",
+    "already exists", "already_exists", "Connection timed out", "Connection refused", "Read timed out", "timed out", "success", "ok", "acknowledged",
+    "N/A", "", "408", "409", "400",
+]
+API_STATUS_POOL = [400, 401, 403, 404, 405, 408, 409, 410, 412, 413, 429, 500, 502, 503, 504]
+RARE_STATUSES = [0, 100, 200, 201, 301, 402, 406, 407, 418, 422, 499, 501, 507, 599]
+SUCCESS_SPECS = ["absent", True, False, 0, 1, None, "", "no", [], [0], 0.0, "false"]
+_VOCAB = {}
+
+
+def code_vocabulary(repo_root):
+    """fuzzing dictionary from the tree under test: every identifier-like string constant of esrally/driver/runner.py that looks like an
+    error wording or is a constant of class Retry, and every integer 100..599 of class Retry (values at the constants of the code)"""
+    if repo_root in _VOCAB:
+        return _VOCAB[repo_root]
+    words, ints = set(), set()
+    try:
+        src = open(os.path.join(repo_root, "esrally", "driver", "runner.py"), encoding="utf-8").read()
+        words.update(re.findall(r"[a-z][a-z_]*_(?:exception|error|timeout)\b", src))
+        tree = ast.parse(src)
+        for node in tree.body:
+            if isinstance(node, ast.ClassDef) and node.name == "Retry":
+                for n in ast.walk(node):
+                    if isinstance(n, ast.Constant):
+                        if isinstance(n.value, str) and 2 <= len(n.value) <= 60 and re.fullmatch(r"[\w\-./: ]+", n.value):
+                            words.add(n.value)
+                        elif isinstance(n.value, int) and not isinstance(n.value, bool) and 100 <= n.value <= 599:
+                            ints.add(n.value)
+    except (OSError, SyntaxError):
+        pass
+    _VOCAB[repo_root] = (sorted(words - set(ES_WORDINGS)), sorted(ints - set(API_STATUS_POOL)))
+    return _VOCAB[repo_root]
+
+
+def exc_population():
+    """name -> (class, group).  `group` is the property's outcome class of objects of that class, assigned by hand from the property text
+    (classes that inherit from several of the families do not exist in the libraries and are deliberately not driven: the order of the
+    `except` clauses is not observable on real classes, and a rewrite that reorders or merges clauses keeps the property)"""
+    import socket
+    import asyncio
+    import elasticsearch
+    import elastic_transport
+    from esrally import exceptions
+
+    E, T = elasticsearch, elastic_transport
+    pop = {
+        "socket.timeout": (socket.timeout, "sockTimeout"), "TimeoutError": (TimeoutError, "sockTimeout"), "asyncio.TimeoutError": (asyncio.TimeoutError, "sockTimeout"),
+        "es.ConnectionError": (E.exceptions.ConnectionError, "connError"), "transport.ConnectionError": (T.ConnectionError, "connError"),
+        "TlsError": (T.TlsError, "connError"), "SSLError": (E.exceptions.SSLError, "connError"),
+        "es.ConnectionTimeout": (E.exceptions.ConnectionTimeout, "connTimeout"), "transport.ConnectionTimeout": (T.ConnectionTimeout, "connTimeout"),
+        "ApiError": (E.ApiError, "api"), "BadRequestError": (E.BadRequestError, "api"), "ConflictError": (E.ConflictError, "api"),
+        "NotFoundError": (E.NotFoundError, "api"), "AuthenticationException": (E.AuthenticationException, "api"),
+        "AuthorizationException": (E.AuthorizationException, "api"), "UnsupportedProductError": (E.UnsupportedProductError, "api"),
+        "by-status": (None, "api"),      # the class elasticsearch-py picks for the status (HTTP_EXCEPTIONS, else ApiError)
+        "TransportError": (T.TransportError, "transportOther"), "SerializationError": (T.SerializationError, "transportOther"),
+        "SniffingError": (T.SniffingError, "transportOther"),
+        "KeyError": (KeyError, "otherExc"), "ValueError": (ValueError, "otherExc"), "OSError": (OSError, "otherExc"),
+        "ConnectionRefusedError": (ConnectionRefusedError, "otherExc"), "ConnectionResetError": (ConnectionResetError, "otherExc"),
+        "RallyError": (exceptions.RallyError, "otherExc"), "DataError": (exceptions.DataError, "otherExc"),
+        "RallyTaskAssertionError": (exceptions.RallyTaskAssertionError, "otherExc"),
+    }
+    return pop
+
+
+EXC_NAMES_BY_GROUP = {
+    "sockTimeout": ["socket.timeout", "TimeoutError", "asyncio.TimeoutError"],
+    "connError": ["es.ConnectionError", "transport.ConnectionError", "TlsError", "SSLError"],
+    "connTimeout": ["es.ConnectionTimeout", "transport.ConnectionTimeout"],
+    "api": ["by-status"] * 6 + ["ApiError", "BadRequestError", "ConflictError", "NotFoundError", "AuthenticationException", "AuthorizationException", "UnsupportedProductError"],
+    "transportOther": ["TransportError", "SerializationError", "SniffingError"],
+    "otherExc": ["KeyError", "ValueError", "OSError", "ConnectionRefusedError", "ConnectionResetError", "RallyError", "DataError", "RallyTaskAssertionError"],
+}
+
+
+def _api_message_body(what, status, shape):
+    """how the wording reaches the exception object: message = error type (Rally's client), error document, text body, string error …"""
+    errdoc = {"error": {"type": what, "reason": f"reason [{what}]", "root_cause": [{"type": what, "reason": f"reason [{what}]", "index": "logs-1"}], "index": "logs-1"}, "status": status}
+    return [
+        (what, errdoc),
+        (what, None),
+        (what, {}),
+        (what, f"{status} {what}"),
+        (str(status), {"error": what, "status": status}),
+        ("", errdoc),
+        (f"{what}: index [logs-1/abc] already exists" if what else "N/A", errdoc),
+        (what, what.encode()),
+    ][shape % 8]
+
+
+def build_product(d, idx):
+    """descriptor of the case -> (is_value, object, facts for the model, property class or None)"""
+    import elasticsearch
+    import elastic_transport
+    import socket
+
+    what, shape = d.get("what", ""), d.get("shape", 0)
+    if "v" in d:
+        if d["v"] == "dict":
+            o = [{"weight": 1, "unit": "ops"}, {}, {"weight": 3, "unit": "docs", "took": 5}][shape % 3]
+            o = dict(o, id=idx)
+            if d["success"] != "absent":
+                o["success"] = d["success"]
+            if shape % 2 == 1 or what:
+                o.update({"error-type": ["api", "transport"][shape % 2], "error-description": what, "http-status": d.get("status", 400)})
+            truth = None if d["success"] == "absent" else bool(d["success"])
+            cls = "dictOk" if truth is None or truth else "dictFail"
+            return True, o, {"t": "value", "dict": True, "success": truth}, cls
+        o = [(1, "ops", what), what, None, idx + 1000, [what], 0.5, (what,)][shape % 7]
+        truth = None if d["success"] == "absent" else bool(d["success"])
+        return True, o, {"t": "value", "dict": False, "success": truth}, "nonDict"
+    pop = exc_population()
+    c, group = pop[d["x"]]
+    status = d.get("status", 0)
+    if d["x"] == "by-status":
+        c = elasticsearch.exceptions.HTTP_EXCEPTIONS.get(status, elasticsearch.ApiError)
+    if issubclass(c, elasticsearch.ApiError):
+        msg, body = _api_message_body(what, status, shape)
+        o = c(msg, _meta(status, shape), body)
+    elif issubclass(c, elastic_transport.TransportError):
+        errs = [(), (OSError(110, what),), (TimeoutError(what), ValueError("v"))][shape % 3]
+        o = c(what if shape % 4 else _Opaque(what), errors=errs)
+    else:
+        o = c(what) if shape % 5 or issubclass(c, __import__('esrally').exceptions.RallyError) else c()
+    facts = {"t": "exc", "sock": isinstance(o, socket.timeout), "conn": isinstance(o, elasticsearch.exceptions.ConnectionError),
+             "api": isinstance(o, elasticsearch.ApiError), "cto": isinstance(o, elasticsearch.exceptions.ConnectionTimeout),
+             "transport": isinstance(o, elastic_transport.TransportError), "status": status if isinstance(o, elasticsearch.ApiError) else 0}
+    cls = group
+    if group == "api":
+        cls = "api408" if status == 408 else "apiOther"
+    return False, o, facts, cls
+
+
+def _snapshot(is_value, o):
+    import copy
+
+    if is_value:
+        return copy.deepcopy(o)
+    return (type(o), repr(o.args), repr(getattr(o, "message", None)), repr(getattr(o, "body", None)),
+            getattr(getattr(o, "meta", None), "status", None), repr(getattr(o, "errors", None)))
+
+
+def _gen_product(rng, vocab, statuses, earlier):
+    r = rng.random()
+    what = rng.choice(vocab)
+    if earlier and rng.random() < 0.25:
+        what = rng.choice(earlier).get("what", what)      # the same wording as an earlier attempt
+    shape = rng.randrange(24)
+    if r < 0.12:
+        return {"v": "dict", "success": rng.choice(["absent", True, True, 1, "yes", [0]]), "what": rng.choice(["", "", what]), "shape": shape}
+    if r < 0.27:
+        return {"v": "dict", "success": rng.choice([False, False, 0, None, "", [], 0.0]), "what": rng.choice(["", what, what]), "status": rng.choice(statuses), "shape": shape}
+    if r < 0.32:
+        return {"v": "non", "success": rng.choice(SUCCESS_SPECS), "what": what, "shape": shape}
+    if r < 0.62:
+        g = rng.choice(["sockTimeout", "connError", "connTimeout"])
+        return {"x": rng.choice(EXC_NAMES_BY_GROUP[g]), "status": 0, "what": what, "shape": shape}
+    if r < 0.88:
+        st = 408 if rng.random() < 0.3 else rng.choice(statuses)
+        return {"x": rng.choice(EXC_NAMES_BY_GROUP["api"]), "status": st, "what": what, "shape": shape}
+    g = rng.choice(["transportOther", "otherExc"])
+    return {"x": rng.choice(EXC_NAMES_BY_GROUP[g]), "status": rng.choice([408, 404, 400, 409, 503]), "what": what, "shape": shape}
+
+
+def gen_content(ctx):
+    """(a) complete: every wording x every common status x every kind of earlier attempt that is retried (the four time-out classes,
+    an unsuccessful result, none) x budgets that end at / after the API error; (b) random scripts of raw products of every class"""
+    from esrally import track
+    from harness.framework import REPO
+
+    rng = ctx.rng
+    extra_words, extra_ints = code_vocabulary(REPO)
+    vocab = ES_WORDINGS + extra_words
+    statuses = API_STATUS_POOL + extra_ints
+    ops = sorted(m.to_hyphenated_string() for m in track.OperationType)
+    preds = [None, {"x": "es.ConnectionTimeout"}, {"x": "es.ConnectionError"}, {"x": "socket.timeout"}, {"x": "by-status", "status": 408},
+             {"v": "dict", "success": False}]
+    psets = [{"retries": 2, "on_error": True}, {"until": True, "wait": ["f", "0.25"]}, {"retries": 1, "on_error": True, "wait": ["i", 1]}, {"ctor": True}]
+    n = i = 0
+    for wi, what in enumerate(vocab):
+        for si, st in enumerate(statuses):
+            for pi, pred in enumerate(preds):
+                i += 1
+                if i % ctx.nshards != ctx.shard:
+                    continue
+                k = wi + si + pi
+                raws = []
+                if pred is not None:
+                    raws.append(dict({"status": 0, "what": vocab[(k * 7) % len(vocab)], "shape": k}, **pred))
+                    if k % 3 == 0:
+                        raws.append({"v": "dict", "success": [False, 0, None][k % 3], "what": "", "shape": k})
+                        if psets[k % 4].get("retries") == 1:
+                            raws.pop()
+                raws.append({"x": ["by-status", "ApiError", "by-status"][k % 3], "status": st, "what": what, "shape": k // 3})
+                raws.append({"v": "dict", "success": "absent", "what": "", "shape": 0})
+                yield {"op": ops[k % len(ops)] if k % 4 == 3 else None, "p": psets[k % 4], "raws": raws}
+                n += 1
+    for _ in range(max(0, ctx.budget - n)):
+        L = rng.choice([1, 2, 2, 3, 3, 4, 5, 6, 8])
+        raws = []
+        for _j in range(L):
+            raws.append(_gen_product(rng, vocab, statuses + RARE_STATUSES if rng.random() < 0.2 else statuses, raws))
+        pw = gen_params(rng, L)
+        if rng.random() < 0.5:
+            pw["on_timeout"] = rng.choice([None, True])
+            if pw.get("retries") is not None and pw["retries"] >= 0:
+                pw["retries"] = max(pw["retries"], L - rng.choice([0, 1, 1, 2]))
+        op = rng.choice(ops) if rng.random() < 0.3 else None
+        if op is not None:
+            pw["ctor"] = None
+        yield {"op": op, "p": pw, "raws": raws}
+
+
+def run_content(ctx, case):
+    from esrally.driver import runner
+    from esrally import exceptions
+
+    pw, raws, op = case["p"], case["raws"], case.get("op")
+    built = [build_product(d, i) for i, d in enumerate(raws)]
+    objs = [(b[0], b[1]) for b in built]
+    before = [_snapshot(b[0], b[1]) for b in built]
+    whats = sorted({d.get("what", "") for d in raws})
+    wire = [dict(b[2], what=whats.index(d.get("what", ""))) for b, d in zip(built, raws)]
+    params = wire_params(pw)
+    ctor_default = False
+    registered = None
+    if op is not None:
+        rows = _registered(ctx)
+        try:
+            registered = runner.runner_for(op)
+        except exceptions.RallyError:
+            registered = None
+        if registered is not None and not rows[op]["wrapped"]:
+            registered = None
+    if registered is not None:
+        row = rows[op]
+        cls = type(runner.unwrap(registered))
+        es = {"default": object()}
+        eff = dict(pw, ctor=row["until"])
+        # the documentation of get-async-search states that it waits until success by default
+        ctor_default = op == "get-async-search"
+        documented = row["doc_retryable"]
+
+        def call(script):
+            async def patched(self, e, p):
+                if p is not params:
+                    raise HarnessError("innermost runner called with foreign params")
+                return await script()
+
+            async def go():
+                orig = cls.__call__
+                cls.__call__ = patched
+                try:
+                    return await registered(es, params)
+                finally:
+                    cls.__call__ = orig
+
+            return go()
+    else:
+        es = object()
+        eff = dict(pw, ctor=bool(pw.get("ctor", False)))
+        ctor_default = None
+        documented = True
+
+        def call(script):
+            async def delegate(e, p):
+                if e is not es or p is not params:
+                    raise HarnessError("delegate called with foreign arguments")
+                return await script()
+
+            r = runner.Retry(delegate) if pw.get("ctor") is None else runner.Retry(delegate, retry_until_success=pw["ctor"])
+            return r(es, params)
+
+    res, trace, _ = drive(call, None, objs=objs)
+    a = model_args(eff, [])
+    del a["outs"]
+    a["raws"] = wire
+    m = ctx.model("retry", "run_raw", a)
+    mr = m["r"]
+    if [mr["res"], mr["trace"]] != [res, trace]:
+        ctx.diff("Retry.__call__ on raw products" + (f" ({op})" if registered is not None else ""),
+                 {"res": mr["res"], "trace": mr["trace"], "kinds": mr["kinds"]}, {"res": res, "trace": trace})
+    # direct oracle: the property's classes assigned by hand to the library classes
+    kinds = [b[3] for b in built]
+    consumed = trace.count("c")
+    if documented and all(k is not None for k in kinds[: max(consumed, 1)]):
+        known = [[k, 0] for k in kinds]
+        cut = next((j for j, k in enumerate(kinds) if k is None), len(kinds))
+        if ctor_default is None:
+            exp = oracle(pw, known[:cut])
+        else:
+            exp = oracle(dict(pw, ctor=None), known[:cut], ctor_default=ctor_default)
+        if exp is not None and not (exp[0] == ["pending"] and cut < len(kinds)) and [exp[0], exp[1]] != [res, trace]:
+            c = "retry-semantics"
+            n_exp = exp[1].count("c")
+            if 1 <= n_exp <= len(kinds) and kinds[n_exp - 1] in ("apiOther", "api408") and exp[0][0] == "raised" and res[0] != "raised":
+                c = "api-error-not-propagated-as-it-is"
+            elif res[0] in ("returned-foreign", "raised-foreign"):
+                c = "result-not-an-attempts-product"
+            ctx.fail(c, "Retry does not do what the property prescribes for these attempt products (class x status x wording x history)",
+                     {"res": exp[0], "trace": exp[1], "classes": kinds}, {"res": res, "trace": trace})
+    for j in range(min(consumed, len(built))):
+        if _snapshot(built[j][0], built[j][1]) != before[j]:
+            ctx.fail("attempt-product-altered", f"the product of attempt {j + 1} was changed on its way through Retry", str(before[j])[:200], str(_snapshot(built[j][0], built[j][1]))[:200])
+    ctx.count("len:%d" % len(raws))
+    ctx.count("res:" + res[0])
+    ctx.count("via:" + ("registered" if registered is not None else "Retry(delegate)"))
+    for j, k in enumerate(kinds[:consumed]):
+        ctx.count("consumed:" + (k or "hybrid"))
+        if k == "apiOther" and j > 0 and any(x in TIMEOUTISH for x in kinds[:j] if x):
+            ctx.count("api-error-after-retried-timeout")
+    ctx.sig([sorted(m.get("tags", [])), res[0], _shape(pw), registered is not None, sorted({k or "hybrid" for k in kinds[:consumed]})], nontrivial=consumed > 0)
+
 
 STREAMS = [
     Stream("random_scripts", gen_random, run_retry, quick=24000, thorough=1500000, shards=16),
@@ -1464,4 +1797,5 @@ STREAMS = [
     Stream("cluster_answers", gen_cluster_answers, run_task_invocations, quick=12000, thorough=120000, shards=16),
     Stream("long_scripts", gen_long, run_retry, quick=32, thorough=320, shards=16),
     Stream("concurrent_invocations", gen_concurrent, run_concurrent, quick=4000, thorough=60000, shards=16),
+    Stream("product_content", gen_content, run_content, quick=16000, thorough=160000, shards=16),
 ]
